@@ -241,6 +241,11 @@ func (c *Channel) JoinPresence(ctx context.Context, p stanza.Presence, opt ...Op
 	}
 	c.addr = newAddr
 	c.client.managed[c.addr.String()] = c
+	// A new stay in the room begins: forget a departure nobody waited for.
+	select {
+	case <-c.depart:
+	default:
+	}
 	c.client.managedM.Unlock()
 	p.To = c.addr
 
